@@ -10,6 +10,16 @@ COMMON_NOTE = ("Trusted base: TLC 1.8 evaluating the TLA+ specification in /veri
                "assumption of DESIGN 2.5 for the exhaustive part; simulated / random traces go beyond it.")
 
 CHECKS = {
+ "C16": dict(engine="FileFormat", design="3/C16",
+   text=("FileFormat.tla specifies the four file types as token sequences (keyword / integer / opaque value token = the "
+         "four 16-bit limbs of a double's bit pattern), Export(obj) with 1-based subscripts and stored order preserved, "
+         "and Import(tokens, base) as its inverse; TLC checks Import o Export = id for both index bases and the header "
+         "laws on every generated object (dense, sparse with pattern classes and two stored orders, Kruskal ranks 1-3, "
+         "matrices; 1-way and singleton shapes) over a catalogue of special and seeded random doubles.  For each object "
+         "the real export_data file is tokenised and compared with the specified sequence, the specification's file is "
+         "fed to the real import_data for both bases, and the real round trip is taken; TLC validates all three "
+         "observations against FileFormat_Trace bit for bit."),
+   technique="TLA+ token-level spec FileFormat; TLC inverse-law checking + object generation; file-level replay both directions; TLC trace validation"),
  "C15": dict(engine="Symmetry", design="3/C15",
    text=("Symmetry.tla defines the symmetrised tensor (scaled by prod |g|! to stay integral) as the sum over all "
          "permutations of the modes inside each group and the symmetry test as invariance under all of them; TLC "
